@@ -86,6 +86,8 @@ private:
         // Calculate inv(A - r * I) * vj
         Vector v_real(m_n), v_imag(m_n), OPv_real(m_n), OPv_imag(m_n);
         const Scalar eps = TypeTraits<Scalar>::epsilon();
+        try
+        {
         for (Index i = 0; i < m_nev; i++)
         {
             v_real.noalias() = m_fac.matrix_V() * m_ritz_vec.col(i).real();
@@ -126,6 +128,14 @@ private:
                 m_ritz_val[i] = Complex(Eigen::numext::real(lambdaj), Scalar(0));
                 SPECTRA_VERIF_EVENT("PairFixup", this, (long long) i, 0);
             }
+        }
+
+        }
+        catch (...)
+        {
+            // The operator has failed: put back the shift given by the user before passing the exception on
+            m_op.set_shift(m_sigmar, m_sigmai);
+            throw;
         }
 
         // Restore the shift given by the user, so that the operator behaves as before
